@@ -175,17 +175,16 @@ Lemma put_atomic v b d s i x k :
              /\ (equiv s' s \/ equiv s' (aset i x s))
              /\ ((length (put_steps v b d i x) <= k)%nat -> equiv s' (aset i x s)).
 Proof.
-  intros Hs Hm. destruct d as [m tf tz]; cbn in Hm; subst m.
+  intros Hs Hm. destruct d as [m tf tz pd]; cbn in Hm; subst m.
   destruct b; cbn in Hs; unfold put_steps; try rewrite Hs.
   - destruct k as [|k]; cbn; rewrite ?firstn_nil; cbn; eexists; (split; [reflexivity|]); split.
     + left; apply equiv_refl. + intros; lia. + right; apply equiv_refl. + intros; apply equiv_refl.
   - destruct k as [|[|[|k]]]; cbn; rewrite ?firstn_nil; cbn; eexists; (split; [reflexivity|]); split;
       try (left; apply equiv_refl); try (intros; lia); try (right; apply equiv_refl); try (intros; apply equiv_refl).
-  - unfold view; cbn [main]. destruct (has i s).
-    + destruct k as [|[|[|[|k]]]]; cbn; rewrite ?firstn_nil; cbn; eexists; (split; [reflexivity|]); split;
-        try (left; apply equiv_refl); try (intros; lia); try (right; eqv i s); try (intros; eqv i s).
-    + destruct k as [|k]; cbn; rewrite ?firstn_nil; cbn; eexists; (split; [reflexivity|]); split;
-        try (left; apply equiv_refl); try (intros; lia); try (right; eqv i s); try (intros; eqv i s).
+  - apply andb_true_iff in Hs. destruct Hs as [Hs1 Hs2]. apply negb_true_iff in Hs2. rewrite Hs1, Hs2.
+    unfold view; cbn [main negb]. rewrite orb_true_r.
+    destruct k as [|[|[|[|k]]]]; cbn; rewrite ?firstn_nil; cbn; eexists; (split; [reflexivity|]); split;
+      try (left; apply equiv_refl); try (intros; lia); try (right; eqv i s); try (intros; eqv i s).
 Qed.
 
 Lemma del_atomic v b d s i k :
@@ -194,13 +193,13 @@ Lemma del_atomic v b d s i k :
              /\ (equiv s' s \/ equiv s' (adel i s))
              /\ ((length (del_steps v b d i) <= k)%nat -> equiv s' (adel i s)).
 Proof.
-  intros Hs Hm. destruct d as [m tf tz]; cbn in Hm; subst m.
+  intros Hs Hm. destruct d as [m tf tz pd]; cbn in Hm; subst m.
   destruct b; cbn in Hs; unfold del_steps; try rewrite Hs.
   - destruct k as [|k]; cbn; rewrite ?firstn_nil; cbn; eexists; (split; [reflexivity|]); split;
       try (left; apply equiv_refl); try (intros; lia); try (right; apply equiv_refl); try (intros; apply equiv_refl).
   - destruct k as [|k]; cbn; rewrite ?firstn_nil; cbn; eexists; (split; [reflexivity|]); split;
       try (left; apply equiv_refl); try (intros; lia); try (right; apply equiv_refl); try (intros; apply equiv_refl).
-  - unfold view; cbn [main].
+  - apply andb_true_iff in Hs. destruct Hs as [Hs1 Hs2]. rewrite Hs1. unfold view; cbn [main].
     destruct k as [|[|[|k]]]; cbn; rewrite ?firstn_nil; cbn; eexists; (split; [reflexivity|]); split;
       try (left; apply equiv_refl); try (intros; lia); try (right; apply equiv_refl); try (intros; apply equiv_refl).
 Qed.
@@ -588,7 +587,7 @@ Qed.
 (* ------------------------------------------------------------------------------------------------------------ *)
 (* witnesses                                                                                                      *)
 
-Definition disk_of (s : store) : disk := {| main := Some s; tmpf := None; tmpz := None |}.
+Definition disk_of (s : store) : disk := {| main := Some s; tmpf := None; tmpz := None; pend := None |}.
 
 (* the pinned snapshot: FilesystemBackend.put opened the document with 'w' before writing *)
 Lemma snapshot_fs_unsafe :
